@@ -15,13 +15,17 @@ EI = "pgmpy/inference/ExactInference.py"
 
 describe(
     "C17",
-    "only the second sentence of the property and the structural skeleton of the interface algorithm: every CPD/factor that the "
+    "the second sentence of the property and the structural skeleton of the interface algorithm: every CPD/factor that the "
     "dynamic network or its inference engine re-creates from an existing one (constant two-slice network, initial-state completion, "
     "time-shifted interface potentials, per-slice results) forwards the source's state names, takes its evidence order from the "
     "source CPD's own variables (moved to the other slice) and never from a graph query, and reshapes with the CPD's own "
     "cardinalities, never an integer literal; time shifting keeps scope order, cardinalities and values together; the engine builds a "
-    "fresh BeliefPropagation per slice and BeliefPropagation copies a junction tree it is given, so per-slice edits stay private.",
-    ["that the interface algorithm's marginals equal those of the unrolled network (numeric, algorithmic)", "evidence handling across slices"],
+    "fresh BeliefPropagation per slice and BeliefPropagation copies a junction tree it is given, so per-slice edits stay private; "
+    "time-slice coordinates agree (evidence re-keyed to slice s is only filtered against the slice-s interface nodes; an interface "
+    "marginal over slice K is shifted to 1-K); the observed interface nodes carried into a 1.5-slice step are re-computed on every "
+    "path of every iteration and merged under no condition but their own non-emptiness, in the forward and in the backward pass; no "
+    "message cache with an incomplete key.",
+    ["that the interface algorithm's marginals equal those of the unrolled network (numeric, algorithmic)"],
 )
 
 
